@@ -79,8 +79,15 @@ pub fn run(input: &mut dyn BufRead, out: &mut dyn Write, _args: &[String]) -> R 
     let dir = std::env::var("HV_PCAP_DIR").unwrap_or_else(|_| "/verif/.work/pcap".to_string());
     std::fs::create_dir_all(&dir).map_err(|e| e.to_string())?;
     crate::clock::set_ms(1_700_000_000_000);
+    // runs whose worker threads never leave keep their threads (possibly spinning) for the rest of this process: after two such runs
+    // the remaining lines are answered with "skipped" instead of piling more of them up
+    let mut hangs = 0u32;
     for v in crate::lines(input) {
         let id = v["id"].clone();
+        if hangs >= 2 {
+            writeln!(out, "{}", json!({"id": id, "skipped": "two earlier runs of this batch did not finish (result channel still open after 10 s)"})).map_err(|e| e.to_string())?;
+            continue;
+        }
         let frames: Vec<Vec<u8>> = arr(&v["frames"]).iter().map(blob).collect();
         let cap = v["cap"].as_u64().unwrap_or(1000) as usize;
         let with_db = v["matcher"].as_bool().unwrap_or(true);
@@ -305,6 +312,9 @@ pub fn run(input: &mut dyn BufRead, out: &mut dyn Write, _args: &[String]) -> R 
             }
             Err(e) => json!({"id": id, "panic": e}),
         };
+        if o["hung"].as_bool() == Some(true) {
+            hangs += 1;
+        }
         writeln!(out, "{o}").map_err(|e| e.to_string())?;
     }
     Ok(())
